@@ -1,15 +1,15 @@
-\* scenario (regression of fix 4c1b5ee / KF-18a): replica 4 holds two pending removes with contexts {A:1} and {A:1,C:1};
+\* scenario (regression of fix 4c1b5ee / KF-18a): replica 4 holds two pending removes, {A:1} -> {x} and {A:1,C:1} -> {y};
 \* reset_remove with every clock of [Actors -> 0..1] (e.g. {C:1} makes the two contexts collapse)
 CONSTANTS
   NReps = 4
-  NMembers = 1
+  NMembers = 2
   MaxOps = 4
   Regime = "fifo"
   UseMerge = FALSE
   UseSnap = FALSE
   UseDup = FALSE
   DumpReset = TRUE
-  CmdSet = {"add", "rm"}
+  CmdSet = {"add", "rm", "addall"}
   ScriptName = "collapsing_pending"
   Reps <- MCReps
   Actors <- MCActors
